@@ -483,11 +483,13 @@ func (c *CqlServerConnection) incomingLoop() {
 func (c *CqlServerConnection) outgoingLoop() {
 	log.Debug().Msgf("%v: listening for outgoing frames...", c)
 	c.waitGroup.Add(1)
+	// read the field once: Close sets it to nil before closing the channel, and receiving from a nil channel blocks forever
+	outgoingChannel := c.outgoing
 	go func() {
 		abort := false
 		for !c.IsClosed() {
 			verifPoint("server.outgoingLoop.iter")
-			if outgoing, ok := <-c.outgoing; !ok {
+			if outgoing, ok := <-outgoingChannel; !ok {
 				if !c.IsClosed() {
 					log.Error().Msgf("%v: outgoing frame channel was closed unexpectedly, closing connection", c)
 					abort = true
